@@ -73,6 +73,10 @@ type Opts struct {
 	BackwardsClock bool
 	VersionSeed    int64
 	ExistingDir    bool // reopen: do not wipe Dir
+	// NowHook, if set, is called by the front end's time source before every reading of the
+	// clock (real time is returned): a scenario may block in it to hold a request at the places
+	// where the server looks at the clock. WithTimeSkewLimit(0) goes with it.
+	NowHook func()
 	// Faults wraps the file systems of the s3afero kinds (fs-mm, fs-dir, single-mm, single-dir) so
 	// that chosen calls fail; see FaultPlan.
 	Faults *FaultPlan
@@ -208,6 +212,9 @@ func NewServer(o Opts) (*Server, error) {
 func (s *Server) buildFaker() {
 	o := s.Opts
 	var opts []gofakes3.Option
+	if o.NowHook != nil {
+		opts = append(opts, gofakes3.WithTimeSource(&hookedClock{hook: o.NowHook}), gofakes3.WithTimeSkewLimit(0))
+	}
 	if !o.FixedTime.IsZero() {
 		opts = append(opts, gofakes3.WithTimeSource(gofakes3.FixedTimeSource(o.FixedTime)))
 	}
@@ -336,6 +343,12 @@ func (s *Server) DiskTree() map[string]string {
 }
 
 // backwardsClock is a gofakes3.TimeSource that goes back one second per reading.
+// hookedClock is the wall clock with a callback before every reading.
+type hookedClock struct{ hook func() }
+
+func (c *hookedClock) Now() time.Time                    { c.hook(); return time.Now() }
+func (c *hookedClock) Since(t time.Time) time.Duration { return time.Since(t) }
+
 type backwardsClock struct {
 	mu sync.Mutex
 	at time.Time
